@@ -24,6 +24,7 @@ var (
 	idxIPv4       []int64
 	idxFixedOctet []int64 // user catalogue keys (>=100000)
 	idxSmall      []int64 // small fixed-size elements
+	idxOneByte    []int64 // fixed-size elements of one byte
 )
 
 func initC09Index() {
@@ -38,6 +39,9 @@ func initC09Index() {
 			idxIPv4 = append(idxIPv4, int64(i))
 		case sp.Len != entities.VariableLength && sp.Len <= 8:
 			idxSmall = append(idxSmall, int64(i))
+			if sp.Len == 1 && sp.Ent == 0 {
+				idxOneByte = append(idxOneByte, int64(i))
+			}
 		}
 	}
 	for i, sp := range catalogUser {
@@ -77,7 +81,49 @@ func genC09(seed uint64, tier string) *plan.Plan {
 	valid := func() plan.Op {
 		return plan.Op{K: "data", A: int64(r.IntN(3)), B: int64(1 + r.IntN(5)), C: int64(r.Uint64() >> 1), D: int64(r.IntN(300)), S: []string{"", "extra", "v2"}[r.IntN(3)]}
 	}
+	defs := [][]int64{t0, t1, t2}
+	nextSlot := int64(3)
 	for i := 0; i < n; i++ {
+		if r.IntN(10) == 0 {
+			// An already announced id is announced again with another field count, and that send fails
+			// (transport write error, or - rarely - a template just above the size limit): the template
+			// in force is still the one that was transmitted. A data set shaped after it must go
+			// through, one shaped after the failed definition must be refused.
+			slot := r.IntN(3)
+			d := int64(1 + r.IntN(2))
+			nd := append(append([]int64(nil), defs[slot]...), pick(idxSmall))
+			if d == 2 {
+				nd = append(nd, pick(idxSmall))
+			}
+			if len(defs[slot]) > 1 && r.IntN(2) == 0 {
+				d = -1
+				nd = append([]int64(nil), defs[slot][:len(defs[slot])-1]...)
+			}
+			op := plan.Op{K: "retmpl", A: int64(slot), N: nd}
+			if r.IntN(6) == 0 && len(idxOneByte) > 0 {
+				op = plan.Op{K: "retmpl", A: int64(slot), N: []int64{pick(idxOneByte)}, B: int64(16378 + r.IntN(3))}
+				d = 0
+			} else {
+				pl.Ops = append(pl.Ops, plan.Op{K: "wfault", A: 3}) // the write fails, nothing is written
+			}
+			pl.Ops = append(pl.Ops, op, valid())
+			pl.Ops[len(pl.Ops)-1].A = int64(slot)
+			if d != 0 {
+				bad := valid()
+				bad.A = int64(slot)
+				bad.F = []plan.Op{{K: "count", A: d}}
+				pl.Ops = append(pl.Ops, bad)
+			}
+			continue
+		}
+		if r.IntN(25) == 0 && nextSlot < 6 && len(idxOneByte) > 0 {
+			// a template of 16376..16380 one-byte fields: up to 16377 it fits a message, above it must be
+			// refused - and was then never sent, so data for its id must be refused as well
+			pl.Ops = append(pl.Ops, plan.Op{K: "tmpl", A: nextSlot, N: []int64{pick(idxOneByte)}, B: int64(16376 + r.IntN(5))},
+				plan.Op{K: "data", A: nextSlot, B: 1, C: int64(r.Uint64() >> 1), D: 0})
+			nextSlot++
+			continue
+		}
 		switch r.IntN(9) {
 		case 0:
 			// a small pool of never-announced ids, so that the same unknown id is tried repeatedly,
